@@ -70,3 +70,49 @@ func VH_c16_rtr_sessions() {
 	}
 	vReach("end")
 }
+
+// C16 (two caches): the same record may be announced by two caches; removing one cache (DeleteServer's
+// table step) or a withdrawal by the cache that never announced a record leaves the other cache's
+// records in place - the table stays "announced and not withdrawn, per cache".
+func VH_c16_rtr_two_caches() {
+	m := &roaManager{clientMap: map[string]*roaClient{}, table: table.NewROATable(vLogger()), logger: vLogger()}
+	a := &roaClient{host: "cacheA", pendingROAs: make([]*table.ROA, 0), state: oc.RpkiServerState{}}
+	b := &roaClient{host: "cacheB", pendingROAs: make([]*table.ROA, 0), state: oc.RpkiServerState{}}
+	m.clientMap[a.host], m.clientMap[b.host] = a, b
+	asA, asB, asX := vU32("as_a"), vU32("as_b"), vU32("as_x")
+	ann := func(third byte, as uint32) rtr.RTRMessage { return rtr.NewRTRIPPrefix(vAddr4(10, 1, third, 0), 24, 24, as, 1) }
+	wd := func(third byte, as uint32) rtr.RTRMessage { return rtr.NewRTRIPPrefix(vAddr4(10, 1, third, 0), 24, 24, as, 0) }
+	sA, sB := vU16("session_a"), vU16("session_b")
+	c16send(m, a, rtr.NewRTRCacheResponse(sA))
+	c16send(m, a, ann(1, asA))
+	c16send(m, a, ann(2, asB))
+	c16send(m, a, rtr.NewRTREndOfData(sA, vU32("serial_a")))
+	c16send(m, b, rtr.NewRTRCacheResponse(sB))
+	c16send(m, b, ann(1, asX)) // asX may equal asA: the same record from both caches
+	c16send(m, b, rtr.NewRTREndOfData(sB, vU32("serial_b")))
+	vAssert(c16count(m) == 3 && c16has(m, 1, asA) && c16has(m, 2, asB) && c16has(m, 1, asX), "table is not the union of both caches' records")
+	switch vParam("op") {
+	case 0: // cache A is removed: exactly B's record stays
+		m.table.DeleteAll(a.host)
+		vAssert(c16count(m) == 1 && c16has(m, 1, asX), "removing a cache removed or kept records of the other cache")
+	case 1: // cache B withdraws a record only A announced (and, when asX == asA, its own copy of record 1 stays)
+		c16send(m, b, wd(2, asB))
+		vAssert(c16count(m) == 3 && c16has(m, 2, asB), "a withdrawal by one cache removed the other cache's record")
+	case 2: // cache B withdraws its record: A's copy (if asX == asA) stays
+		c16send(m, b, wd(1, asX))
+		vAssert(c16count(m) == 2 && c16has(m, 1, asA) && c16has(m, 2, asB), "withdrawal by cache B touched cache A's records")
+		if asX == asA {
+			vReach("same_record")
+		}
+	case 3: // cache A starts a new session announcing nothing: only B's record stays
+		s2 := vU16("session_a2")
+		c16send(m, a, rtr.NewRTRCacheResponse(s2))
+		c16send(m, a, rtr.NewRTREndOfData(s2, vU32("serial_a2")))
+		if s2 != sA {
+			vAssert(c16count(m) == 1 && c16has(m, 1, asX), "session change of cache A removed or kept the wrong records")
+		} else {
+			vAssert(c16count(m) == 3, "empty same-session response changed the table")
+		}
+	}
+	vReach("end")
+}
